@@ -1,10 +1,47 @@
 import Driver.Util
+import Driver.C01
+import Driver.C02
+import Driver.C03
+import Driver.C04
+import Driver.C05
+import Driver.C06
+import Driver.C07
 import Driver.C08
+import Driver.C09
+import Driver.C10
+import Driver.C11
+import Driver.C12
+import Driver.C13
+import Driver.C14
+import Driver.C15
+import Driver.C16
+import Driver.C17
+import Driver.C18
 open Lean
 
 namespace Driver
 
-def allHandlers : List (String × Handler) := C08.handlers
+def allHandlers : List (String × Handler) :=
+  List.flatten [
+    C01.handlers,
+    C02.handlers,
+    C03.handlers,
+    C04.handlers,
+    C05.handlers,
+    C06.handlers,
+    C07.handlers,
+    C08.handlers,
+    C09.handlers,
+    C10.handlers,
+    C11.handlers,
+    C12.handlers,
+    C13.handlers,
+    C14.handlers,
+    C15.handlers,
+    C16.handlers,
+    C17.handlers,
+    C18.handlers
+  ]
 
 def handleLine (line : String) : String :=
   match Json.parse line with
